@@ -398,16 +398,25 @@ UNITS['U27k'] = dict(
     not_covered=['the other call sites of null_vec_like (group-by placeholders)', 'the ASTBuilder proc-macro'])
 
 UNITS['U28k'] = dict(
-    kind='kani', crate='kani/U28', timeout_s=900, mem_gb=8, jobs=3,
-    title='batch_merging::combine, aggregation branch - the plan that merges the grouping keys of two partial results (slice; BOUNDED: 2, 3, 4 group-by columns) with real unify_types / null_to_val; unify_types + least_upper_bound for every pair of types (complete)',
-    harnesses=[dict(name='proofs::%s_group_by_columns' % w, bounded='%d group-by columns at fixed positions, any limit, unwind 7' % n, unwind=7, clause='partition(key0) -> subpartition(key1..n-2 in order) -> merge_deduplicate_partitioned(key n-1) -> merge_drop replay on keys 0..n-2; outputs in key order', fn='combine[slice: >= 2 group-by columns]')
-               for (w, n) in [('two', 2), ('three', 3), ('four', 4)]]
+    kind='kani', crate='kani/U28', timeout_s=1200, mem_gb=8, jobs=5,
+    title='batch_merging::combine - the plan that merges two partial results (slices; BOUNDED: 0-4 group-by columns with three aggregates, 1-3 sort columns with three output columns) with real unify_types / null_to_val; unify_types + least_upper_bound for every pair of types (complete)',
+    harnesses=[dict(name='proofs::%s' % w, bounded='%d group-by columns at fixed positions, three aggregates (int/int, int/float, float/int), any limit, unwind 7' % n, unwind=7, clause=c, fn='combine[slice: aggregation branch up to the executor call]')
+               for (w, n, c) in [('no_group_by_column', 0, 'constant schedule [TakeLeft, MergeRight]; every aggregate combined under it from its own left / right partial column; the integer side of a mixed pair cast to float'),
+                                 ('one_group_by_column', 1, 'merge_deduplicate(key); every aggregate combined under its schedule'),
+                                 ('two_group_by_columns', 2, 'partition(key0) -> merge_deduplicate_partitioned(key1) -> merge_drop replay on key0; aggregates under that schedule'),
+                                 ('three_group_by_columns', 3, 'partition(key0) -> subpartition(key1) -> merge_deduplicate_partitioned(key2) -> merge_drop replay on keys 0..1; outputs in key order; aggregates under that schedule'),
+                                 ('four_group_by_columns', 4, 'partition(key0) -> subpartition(key1..2 in order) -> merge_deduplicate_partitioned(key3) -> merge_drop replay on keys 0..2; outputs in key order; aggregates under that schedule')]]
+    + [dict(name='proofs::%s' % w, bounded='%d sort columns at fixed positions with any directions, three output columns, any limit, unwind 7' % n, unwind=7, clause=c, fn='combine[slice: ORDER BY branch up to the executor call]')
+       for (w, n, c) in [('one_sort_column', 1, 'merge(sort column, limit, its direction); other output columns replayed with merge_keep on their own buffers; the final sort column output is the merged column'),
+                         ('two_sort_columns', 2, 'partition(col0, dir0) -> merge_partitioned(col1, limit, dir1); merge_keep replay on output columns and on sort column 0, directions kept'),
+                         ('three_sort_columns', 3, 'partition(col0, dir0) -> subpartition(col1, dir1) -> merge_partitioned(col2, limit, dir2); merge_keep replay on output columns and on sort columns 0..1, directions kept')]]
     + [dict(name='proofs::unify_types_gives_one_type', clause='for every pair of column types: unify_types returns two buffers of one common type (casts recorded); never a panic', fn='batch_merging::unify_types + EncodingType::least_upper_bound'),
-       dict(name='proofs::five_group_by_columns', thorough_only=True, bounded='5 group-by columns at fixed positions, any limit, unwind 8 (thorough tier)', unwind=8, clause='same chain for five keys', fn='combine[slice: >= 2 group-by columns]'),
+       dict(name='proofs::five_group_by_columns', thorough_only=True, bounded='5 group-by columns at fixed positions, any limit, unwind 8 (thorough tier)', unwind=8, clause='same chain for five keys', fn='combine[slice: aggregation branch up to the executor call]'),
        dict(name='proofs::vx_canary', expect_fail=True)],
-    assumptions=['A-astbuilder: planner methods partition / subpartition / merge_deduplicate_partitioned / merge_drop / cast are recording stand-ins for the generated node constructors',
-                 'the kernels behind the nodes are U10 (merge_deduplicate*, partition, subpartition are partly covered there) and U09m'],
-    not_covered=['more than 4 group-by columns', 'key columns of different types on the two sides (casts)', 'the single-key and no-key branches', 'the ORDER BY merge branch of combine'])
+    assumptions=['A-astbuilder: planner methods constant_vec / partition / subpartition / merge_deduplicate / merge_deduplicate_partitioned / merge_drop / merge_aggregate / merge / merge_partitioned / merge_keep / cast are recording stand-ins for the generated node constructors',
+                 'the kernels behind the nodes are U10, U29 (merge*, partition, subpartition) and U09m (merge_aggregate)',
+                 'R6: batch1.aggregations / batch1.order_by / batch1.projection (and batch2.*) lifted to parameters'],
+    not_covered=['more than 4 group-by columns / 3 sort columns', 'key columns of different types on the two sides (casts; unify_types alone is covered for every pair)', 'the plain SELECT branch (append_all with the LIMIT window)', 'executor run and collect_aliased after the plan is built'])
 
 UNITS['U30k'] = dict(
     kind='kani', crate='kani/U30', timeout_s=600, mem_gb=8,
@@ -547,20 +556,20 @@ PROPS = {
                 technique='contract-based deductive verification (Kani: complete induction step + bounded harnesses) of extracted slices and of the unmodified sub-crate',
                 assumptions=[], not_covered=['capnp transport', 'bitbuffer internals', 'bincode / HTTP framing']),
     'C02': dict(level='proof', units=['U10', 'U09k', 'U09m', 'U13k', 'U20k', 'U28k', 'U29', 'U38k'],
-                level_text='Verus proofs of the merge kernels that combine per-partition results (sorted, provenance, left-biased, nothing skipped), complete Kani proofs of cross-partition aggregate combination and limit arithmetic; bounded Kani check (2-4 keys) of the plan that merges the grouping keys of two partial results',
+                level_text='Verus proofs of the merge kernels that combine per-partition results (sorted, provenance, left-biased, nothing skipped), complete Kani proofs of cross-partition aggregate combination and limit arithmetic; bounded Kani check (0-4 grouping keys with three aggregates; 1-3 sort columns) of the plans that merge two partial aggregation / ORDER BY results',
                 level_note='per-partition planning, executor streaming, disk read scheduling and thread count are glue and not covered: the check catches a broken merge/combine primitive or a broken key-merge chain, not a broken executor',
                 technique='contract-based deductive verification (Verus + Kani complete harnesses) of extracted functions',
-                assumptions=[], not_covered=['executor stage partitioning / streaming', 'batch_merging::combine: ORDER BY branch and single-key branch', 'disk read scheduler']),
+                assumptions=[], not_covered=['executor stage partitioning / streaming', 'batch_merging::combine: plain SELECT branch, executor run and collect_aliased', 'disk read scheduler']),
     'C04': dict(level='proof', units=['U09k', 'U09v', 'U09m', 'U10', 'U19', 'U20k', 'U01', 'U29', 'U31k', 'U32k', 'U33', 'U27k', 'U28k'],
                 level_text='complete Kani proofs of accumulate/combine kernels; Verus proofs of dedup-merge / merge_drop / merge_keep kernels and bitmap primitives',
                 level_note='grouping-key construction, hash-map grouping and the final pass are not covered',
                 technique='contract-based deductive verification (Verus + Kani complete harnesses) of extracted functions',
-                assumptions=[], not_covered=['hashmap_grouping*', 'try_bitpacking (float log2)']),
-    'C05': dict(level='proof', units=['U10', 'U11', 'U12k', 'U13k', 'U26', 'U29', 'U33', 'U35k', 'U27k', 'U36'],
+                assumptions=[], not_covered=['hashmap_grouping*', 'try_bitpacking beyond the width accounting of U31k']),
+    'C05': dict(level='proof', units=['U10', 'U11', 'U12k', 'U13k', 'U26', 'U29', 'U33', 'U35k', 'U27k', 'U36', 'U28k'],
                 level_text='Verus proof of merge (sorted, stable, limit) and of the sort kernels against assumed contracts of the std sorts (stable where stability is asked for, NULLs last / first when descending), complete Kani proofs of integer/float comparators and LIMIT/OFFSET window arithmetic; string comparators bounded',
-                level_note='the std sorts themselves are assumed (A-std-sort); the top-n driver and the planner choice between sort and top-n (and which sorts it requests as stable) are not covered',
+                level_note='the std sorts themselves are assumed (A-std-sort); the top-n driver is covered for seven fixed shapes only (bounded), the planner choice between sort and top-n and the plan that merges two sorted partial results by bounded Kani checks over recording planner stand-ins',
                 technique='contract-based deductive verification (Verus + Kani) of extracted functions',
-                assumptions=[], not_covered=['bodies of slice::sort_by / sort_unstable_by', 'TopN::execute/finalize', 'NormalFormQuery::run sort requests']),
+                assumptions=[], not_covered=['bodies of slice::sort_by / sort_unstable_by', 'TopN beyond the fixed shapes of U35k', 'NormalFormQuery::run sort requests other than the slices of U27k']),
     'C03': dict(level='proof', units=['U01', 'U05k', 'U06k', 'U07k', 'U08v', 'U19', 'U25k', 'U34n', 'U36', 'U40k'],
                 level_text='complete Kani proofs of comparison kernels and constant translation; Verus proof of null bitmap primitives and filter kernels; Kani proof that the planner rewrite makes a binary operator NULL exactly where an operand is NULL; bounded Kani check of string comparisons on dictionary indices',
                 level_note='compile_expr glue other than the NULL rewrite and dictionaries larger than 3 entries are not covered; LIKE is covered only by a bounded native enumeration of its pattern translation (patterns and subjects of <= 4 characters), not by a proof',
